@@ -287,6 +287,8 @@ struct Hdr {
 
 struct Env {
     store: Arc<InMemoryStore>,
+    /// one long-lived multihasher per store, as bitswap holds it: blocks are hashed in sequence on it
+    hasher: hook::VerifMultihasher<InMemoryStore>,
     hdrs: Vec<Hdr>,
 }
 
@@ -1163,7 +1165,7 @@ fn judge_hash(obs: &mut Obs, env: &Env, b: &Built) -> Result<(), Failure> {
     if nontrivial {
         obs.label("fault-reaches-container-verification");
     }
-    let res = match no_panic(|| hook::multihasher_hash_kind(env.store.clone(), b.code, &b.block)) {
+    let res = match no_panic(|| env.hasher.hash(b.code, &b.block)) {
         Ok(r) => r,
         Err(rec) => {
             obs.label("panicked");
@@ -1293,7 +1295,8 @@ fn build_env(case: &Case) -> Result<Env, Failure> {
             Hdr { height: hd.height(), dah: hd.dah.clone(), eds, w, present }
         })
         .collect();
-    Ok(Env { store, hdrs })
+    let hasher = hook::VerifMultihasher::new(store.clone());
+    Ok(Env { store, hasher, hdrs })
 }
 
 fn run_store_case(case: &Case, obs: &mut Obs) -> Result<(), Failure> {
@@ -1322,6 +1325,14 @@ fn run_store_case(case: &Case, obs: &mut Obs) -> Result<(), Failure> {
     for bc in &case.blocks {
         let b = build_block(&env, bc);
         judge_hash(obs, &env, &b)?;
+        // the same instance has to stay sound over a sequence: honest block for the same base id first,
+        // then the faulty block again (a multihasher remembering identifiers must not skip verification)
+        if b.faulty {
+            let honest = build_block(&env, &BlockCase { fault: Fault::None, ..bc.clone() });
+            judge_hash(obs, &env, &honest)?;
+            obs.label("honest-then-faulty-same-id");
+            judge_hash(obs, &env, &b)?;
+        }
     }
     Ok(())
 }
